@@ -356,17 +356,19 @@ func buildSource(generate GenerateFunc, panicChan *onceChan) chan any {
 
 type onceChan struct {
 	channel chan any
-	wrote   int32
 }
 
-// 缓冲为 1：write 至多发生一次，即使调用方已不再接收也绝不阻塞。
+// 缓冲为 1：第一个 panic 进入缓冲，其后的被丢弃；write 绝不阻塞。
 func newOnceChan() *onceChan {
 	return &onceChan{channel: make(chan any, 1)}
 }
 
+// “抢占”与“写入”必须是同一步：若先 CAS 再发送，抢到的一方尚未发送时，
+// 调用方可能已看到流水线结束且缓冲为空，panic 就此丢失。
 func (c *onceChan) write(v any) {
-	if atomic.CompareAndSwapInt32(&c.wrote, 0, 1) {
-		c.channel <- v
+	select {
+	case c.channel <- v:
+	default:
 	}
 }
 
